@@ -404,6 +404,9 @@ class FnSpec:
         targets = loop_targets(eng, s, env)
         if ls.modifies:
             targets = targets + list(ls.modifies(ctx, env))
+        # ghost state boxes declared by the contract (file system, ...) are written through models, which the syntactic
+        # write set cannot see: every such box is havocked too (the invariant has to say what the loop keeps of it)
+        targets = targets + [b for b in (getattr(eng.st, "globals", None) or {}).values() if hasattr(b, "vc_havoc")]
         split = z3.Bool(sv.fresh_name("loop_split"))
         if eng.choose(split):
             # arbitrary iteration
